@@ -252,7 +252,10 @@ pub fn is_simple_count_star<'a>(
                 return None;
             }
             let agg_expr = &agg.aggregates[0];
-            if agg_expr.function != AggregateFunction::Count || agg_expr.distinct {
+            if agg_expr.function != AggregateFunction::Count
+                || agg_expr.distinct
+                || agg_expr.argument.is_some()
+            {
                 return None;
             }
             match agg.input {
